@@ -24,12 +24,13 @@ Proof. exact unknown_rejected. Qed.
 
 (* each setter other than the frequency ones is "write the named slot with the value converted from the path's unit" *)
 Theorem C18_setters_match : forall snell csign p sl u, In (p, (sl, u)) spec_table -> u <> UThz ->
-  exists f, get_setter snell csign p = Some f /\ forall s v, f s v = ideal_set snell csign sl (si_of u v) s.
+  exists f, get_setter snell csign p = Some f /\ forall s v, slot_pre sl s -> f s v = ideal_set snell csign sl (si_of u v) s.
 Proof. exact setters_match. Qed.
 
-(* frame: for ALL 25 paths nothing but the named configuration field changes (external angle: on a beam with normalised azimuth) *)
+(* frame: for ALL 25 paths nothing but the named configuration field changes (external angle: on a beam with normalised azimuth;
+   poling period: on a poled base — slot_pre) *)
 Theorem C18_frame : forall snell csign p sl u, In (p, (sl, u)) spec_table ->
-  exists f, get_setter snell csign p = Some f /\ forall s v, slot_guard sl s ->
+  exists f, get_setter snell csign p = Some f /\ forall s v, slot_pre sl s -> slot_guard sl s ->
     config_opaque (f s v) = config_opaque s /\
     (sl <> SPolingPeriod -> config_poling (f s v) = config_poling s) /\
     agree_except (config_key sl) (config_num (f s v)) (config_num s).
@@ -47,16 +48,16 @@ Proof. exact value_all. Qed.
    magnitude is positive and the sign is the automatically derived one *)
 Theorem C18_poling_period : forall snell csign,
   exists f, get_setter snell csign "periodic_poling.poling_period_um" = Some f /\
-    (forall s v, config_num (f s v) = config_num s /\ config_opaque (f s v) = config_opaque s) /\
+    (forall s v, s_pp s <> Off -> config_num (f s v) = config_num s /\ config_opaque (f s v) = config_opaque s) /\
     (forall p sg ap s v, s_pp s = On p sg ap -> v <> 0 ->
        config_poling (f s v) = Some (round4 (Rabs v), apod_to_config ap) /\
        exists m, s_pp (f s v) = On m (csign (s_signal s) (s_pump s) (s_crystal_setup s)) ap /\ 0 < m /\ m = Rabs v * 1e-6).
 Proof. exact poling_all. Qed.
 
-(* the frequency paths, as the code has them: the value is stored as v * 1e12 rad/s (this is what F8 is about) *)
-Theorem C18_frequency_as_coded_partial : forall snell csign p sl, In (p, (sl, UThz)) spec_table ->
-  exists f, get_setter snell csign p = Some f /\ forall s v, f s v = ideal_set snell csign sl (v * 1e12) s.
-Proof. exact thz_actual. Qed.
+(* the frequency paths write the frequency slot and nothing else (WHICH value they write is finding F8's subject) *)
+Theorem C18_frequency_frame_partial : forall snell csign p sl, In (p, (sl, UThz)) spec_table ->
+  exists f, get_setter snell csign p = Some f /\ forall s v, exists x, f s v = ideal_set snell csign sl x s.
+Proof. exact thz_some. Qed.
 
 (* sweep: nx * ny setups; linear index j * nx + i is (value i of the first parameter, value j of the second): first parameter fastest *)
 Theorem C18_order : forall base setter1 setter2 x0 x1 nx y0 y1 ny,
@@ -102,7 +103,7 @@ Print Assumptions C18_setters_match.
 Print Assumptions C18_frame.
 Print Assumptions C18_value.
 Print Assumptions C18_poling_period.
-Print Assumptions C18_frequency_as_coded_partial.
+Print Assumptions C18_frequency_frame_partial.
 Print Assumptions C18_order.
 Print Assumptions C18_grid.
 Print Assumptions C18_values.
